@@ -46,7 +46,7 @@ def h_sign(f, N, mode):
 
     def body(env):
         A = env.A
-        s = dt.make_spec('combined', 'out = ' + text(f), vs)
+        s = dt.make_spec('combined', 'out = ' + text(f), vs, f=f)
         w = dt.trace(env, vs, N)
         got = _run(s, w, N, mode)
         env.observe('out', got)
@@ -66,7 +66,7 @@ def h_pastified(f, N):
 
     def body(env):
         A = env.A
-        s = dt.make_spec('online', 'out = ' + text(f), vs, pastify=True)
+        s = dt.make_spec('online', 'out = ' + text(f), vs, pastify=True, f=f)
         w = dt.trace(env, vs, N)
         got = dt.online(s, w, N)
         env.observe('out', got)
@@ -88,7 +88,7 @@ def h_step(f, N, mode):
 
     def body(env):
         A = env.A
-        s = dt.make_spec('combined', 'out = ' + text(f), vs)
+        s = dt.make_spec('combined', 'out = ' + text(f), vs, f=f)
         w = dt.trace(env, vs, N, ext=True)
         truth = {v: [env.boolean('b_%s%d' % (v, i)) for i in range(N)] for v in vs}
         for v in vs:
@@ -110,7 +110,7 @@ def h_magnitude(f, N, mode):
 
     def body(env):
         A = env.A
-        s = dt.make_spec('combined', 'out = ' + text(f), vs)
+        s = dt.make_spec('combined', 'out = ' + text(f), vs, f=f)
         w = dt.trace(env, vs, N)
         w2 = dt.trace(env, vs, N, prefix='p_')
         got = _run(s, w, N, mode)
@@ -241,6 +241,12 @@ def obligations(tier, rng):
         hr = refsem.hor(f) + past_reach(f)
         for N in ([hr + 3] if quick else [hr + 2, hr + 4]):
             out.append(ob('C07', 'pastified', 'pastified/%s/N=%d' % (text(g), N), f=g, N=N))
+    from .. import pool
+    for g in pool.ALL:
+        for N in ([5] if quick else [3, 6]):
+            out.append(ob('C07', 'step', 'step/offline/pool/%s/P=%s/unit=%s/N=%d' % (g[1], g[3] or '-', g[4] or '-', N), f=g, N=N, mode='offline'))
+            if is_past(g):
+                out.append(ob('C07', 'step', 'step/online/pool/%s/P=%s/unit=%s/N=%d' % (g[1], g[3] or '-', g[4] or '-', N), f=g, N=N, mode='online'))
     if not quick:
         for i in range(300):
             f = refsem.gen_formula(rng, 3, ops, [(0, 1), (1, 2)], ('x', 'y'))
